@@ -10,7 +10,8 @@ LEAN_MODULES = ["Ccp.Props.C08"]
 RULE = ("statement trees (depth 0..6, fan-out 0..5, first statement level may be empty) whose words are drawn from the "
         "whitespace-separated tokens of the junos and F5 fixture files under tests/fixtures/configs (no Palo-Alto fixture exists "
         "in the repo; its set-style words are covered by the hand list) plus a hand list ('[', ']', 'a:80', '1.2.3.4/24', "
-        "quoted strings, '*', ';x', 'a;b', '##', '#'), rendered with a random layout per node: whitespace before the "
+        "quoted strings, '*', ';x', 'a;b', '##', '#'; 2% of the statements read 'banner motd ^' / 'banner login ^C' / "
+        "'set banner exec ^' so that a banner pass on a brace syntax would show), rendered with a random layout per node: whitespace before the "
         "statement (indent of blanks and/or tabs, blank lines, CR LF), semicolon present/absent, whitespace after the text "
         "(trailing blanks, or line breaks that put the opening brace on the next line), childless statements optionally "
         "written as an empty block, whitespace before and after the closing brace (one-line blocks, compact 'a{b}', "
@@ -86,6 +87,9 @@ def isq(w):
 
 def gen_words(rng, first_ok=lambda w: not isq(w) and not w.startswith("#")):
     pool = words_pool()
+    if rng.random() < 0.02:
+        # looks like an IOS banner start: a brace syntax must not run the banner pass on it
+        return rng.choice([["banner", "motd", "^"], ["banner", "login", "^C"], ["set", "banner", "exec", "^"]])
     n = rng.choice([1, 1, 2, 2, 3, 4, 6])
     ws = [rng.choice(pool) for _ in range(n)]
     for _ in range(50):
@@ -266,7 +270,7 @@ def soup_case(rng):
 HAND = [[""], ["", ""], [";"], ["a {", ";", "}"], ['"k 1" value;'], ['x "a""'], ['"a""'], ['"a\\', 'b" c'], ["a\tb;\t"],
         ["a\x0bb"], ["a\rb"], ["\xe9"], ["{"], ["}"], [" {}"], [" { a }"], ["a;;"], ["a ;"], ["a } b {"], ["a {", "b;"],
         ["a { b; c; }"], ["a { b; } c;"], ["a{b{c{d{e{f{g}}}}}}"], ["\ta {", "\t\tb;\t", "\t}"], ["a {}}"],
-        ['d "x { y" ;'], ['"x { y" z;'], ["'a\\x4g' b"], ["'a\\xg' b"], ["a {", "b;  ", "}"]]
+        ["banner motd ^", "a {", "b;", "c {", "d;", "}", "}", "e ^;"], ['d "x { y" ;'], ['"x { y" z;'], ["'a\\x4g' b"], ["'a\\xg' b"], ["a {", "b;  ", "}"]]
 
 
 def cases(rng, tier):
